@@ -54,6 +54,10 @@ claimed = {
    text="Deductive proof on the real HTTP handler closure (getCDCHandler$1), handleRequest and handleError that every request produces exactly one JSON document (ghost counter of Encoder.Encode calls on the response writer) whose code is 200, 400, 405 or 500, with 405 exactly for non-POST methods and 400/500 exactly when no response value is produced; and on validCreateRequest / checkCollectionInfos that an accepted create request names exactly one well-formed target and exactly one collection specification (wildcard without positions, names within the configured length, RPC channel equal to the source channel) and that validation modifies nothing.",
    note="Assumed: the eight requestHandlers entries return a non-nil response exactly when the error is nil and return response values (dyncall clauses); mapstructure/json/net/http are external (ghost state untouched). The side-effect-freedom of rejects inside MetaCDC.Create (duplicate-detection bookkeeping, revert defer) and checkDuplicateCollection are not yet under contract.",
    design="3 (C19)"),
+ "C03": dict(
+   text="Deductive proof on the real reader code of the per-channel clock kernel: (1) resetMsgTimestamp sets begin/end/row/position time of a message to the new time and keeps position channel and message id; resetMsgPackTimestamp (four loops with quantified invariants, exact uint64 arithmetic) refuses packs that start later or are empty without touching them, otherwise stamps message i at n+delta_i with 1<=delta_i<=i+1, equal source times staying equal and later ones strictly later, pack begin/end and all start/end positions agreeing with the first/last message; (2) every tsManager function that writes the clock (CollectTS, InitTSInfo, UnsafeUpdateTSInfo, UnsafeUpdatePackTS) never lowers cts, keeps lts<=cts and changes lts only to the tick just sent; (3) handlePack, verified as a whole function (per-return obligations, all five loops with invariants): on every return path the channel's last tick never decreases, the clock never goes back and lts<=cts - i.e. the monotone tick sequence for every interleaving of the serialized critical sections. Finding F7 (a tick-only pack of a lagging stream lowered the tick) was found by the failing obligation handlePack#post[the-last-tick-never-decreases]@return3, reproduced on the real code (ticks 991 then 500) and fixed.",
+   note="Assumed at handlePack entry (listed in evidence): clock well-formed with lts<=cts (established by the postconditions of every clock writer), TSO timestamps < 2^62. Private-state rule (DESIGN 10.4): calls through interfaces/function values/other modules made by handlePack are assumed not to re-enter the tsManager writers; static callees that can reach a writer are excluded mechanically. KeyLock is not modelled as a lock invariant: interference between GetMaxTS and LockTargetChannel is covered only by the monotone contracts of the other writers, not by a rely/guarantee proof. Built-in models: msgstream message accessors over the package's message-type universe, sort.Slice as permutation. Not yet proved: the closing message of an emitted pack is a tick carrying lts (needs GetReplicateMsg/append clauses), data messages lie in (previous tick, own tick] (needs the message-loop invariant of C01), clock floor on resume (startInternal). Out of reach: enqueue order vs lock order (SendTargetMsg after unlock), wall-clock tick period.",
+   design="3 (C03), 10.4"),
 }
 na_reason = "contracts for this property are not yet written in this round (see DESIGN.md section 10 for status)"
 all_ids = [json.loads(l)["id"] for l in open("properties.jsonl")]
